@@ -298,7 +298,13 @@ pub fn c09_contract(elm: E, k: i64) {
     if !all {
         kani::assume(hin[&Prayer::Fajr].is_err() || hin[&Prayer::Isha].is_err());
     }
+    // every day of the year, common and leap years: the search must not depend on the day of the year
     let mut jd = fixed_jd();
+    let ord: u32 = kani::any();
+    kani::assume(ord >= 1 && ord <= 366);
+    let date = chrono::NaiveDate::from_yo_opt(if kani::any() { 2023 } else { 2024 }, ord);
+    kani::assume(date.is_some());
+    jd.date = date.unwrap();
     jd.value = BASE_JD;
     let tad = any_tad(jd, any_coords());
     crate::vcover!();
@@ -328,6 +334,8 @@ macro_rules! c09 {
         }
     };
 }
+c09!(c09_search_inv_k6, E::NearestGoodDayFajrIshaInvalid, 6, 9);
+c09!(c09_search_all_k6, E::NearestGoodDayAllPrayersAlways, 6, 9);
 c09!(c09_search_inv_k12, E::NearestGoodDayFajrIshaInvalid, 12, 15);
 c09!(c09_search_all_k12, E::NearestGoodDayAllPrayersAlways, 12, 15);
 c09!(c09_search_inv_k40, E::NearestGoodDayFajrIshaInvalid, 40, 43);
@@ -359,7 +367,7 @@ pub fn c10_near_lat_contract(which: u8) {
         assert!(GH_CALLS == 1, "C10 nearest-latitude recomputes the hours exactly once");
         assert!(GH_LAT == f64::from(nl).to_bits(), "C10 the recomputation uses the substitute latitude");
         assert!(GH_LON == f64::from(coords.longitude).to_bits() && GH_ELEV == f64::from(coords.elevation).to_bits(), "C10 the recomputation keeps longitude and elevation");
-        assert!(GH_GEO == geo, "C10 the recomputation reuses the same day's geocentric ephemeris");
+        assert!(GH_GEO[0] == geo[0] && GH_GEO[1] == geo[1] && GH_GEO[2] == geo[2], "C10 the recomputation reuses the same day's geocentric ephemeris");
         assert!(GH_ANG_FAJR == params.angles[&Prayer::Fajr].to_bits(), "C10 the recomputation uses the same parameters");
     }
     for key in [Prayer::Fajr, Prayer::Isha] {
